@@ -6,6 +6,7 @@ still count from the view's original `begin`.
 -/
 import Compio.Model.View
 import Compio.Model.ViewVec
+import Compio.Model.ViewOps
 
 namespace Compio.Cex.C10
 open Compio Compio.View
@@ -48,6 +49,18 @@ theorem f6_writer_second_write_out_of_bounds_counterexample :
           | _ => false)
         | _ => false
       | _ => false) = true := by decide
+
+/-- F6 through `as_mut_slice` (safe API): `Vec::with_capacity(1).uninit()`, one byte recorded: `as_mut_slice()` is
+`from_raw_parts_mut(buf_mut_ptr() = base + 1, buf_len() = 1)`, a slice that lies entirely behind the 1-byte allocation -/
+theorem f6_as_mut_slice_outside_allocation_counterexample :
+    ((Buf.root ⟨.vec, 0, [0]⟩).run [.uninit, .fill [7]]).toOption.map
+      (fun v => (v.asInit.toOption, v.asMutSlice.toOption)) = some (some (0, 1), none) := by decide
+
+/-- F6 through `ensure_init` (safe API): after 6 of 10 bytes have been recorded through an `Uninit`, `ensure_init`
+indexes `slice[6..]` of the 4-byte region `as_uninit` has shrunk to, and panics -/
+theorem f6_ensure_init_panics_counterexample :
+    (emptyVec10.run [.uninit, .fill (List.replicate 6 1)]).toOption.map (fun v => v.ensureInit.toOption.isSome)
+      = some false := by decide
 
 /-! ## vectored buffers -/
 
